@@ -1934,7 +1934,12 @@ class Exec:
         """Symbolically execute the real function and emit the obligations of its contract."""
         if "@" in qualname:
             qualname, recv = qualname.split("@")
-        fi = self.ix.func(qualname)
+        try:
+            fi = self.ix.func(qualname)
+        except KeyError:
+            # the function a sidecar contract was written for is gone from this tree (removed / renamed): the contract is detached - undecided,
+            # never "checker broken"
+            raise Unsupported(f"{qualname} is under contract but does not exist in this tree (the sidecar contract no longer matches the code)")
         c = self.reg.get(qualname, recv)
         if c is None:
             raise Unsupported(f"no contract for {qualname}" + (f" @ {recv}" if recv else ""))
